@@ -267,6 +267,33 @@ def layerFinish (dest : Str) (st : LState) (out : Out) : Prog (Out × Nat) := do
   let _ ← (if st.tmp ≠ [] then sys (.removeAll st.tmp) else pure .ok)
   pure (out, if out == .ok then st.size else 0)
 
+/-- regular files under `.wh..wh.plnk` are staged in a temporary directory inside the destination -/
+def stageP (dest : Str) (o : Opts) (e : Entry) (st : LState) (n : Str) : Prog (Except Out LState) :=
+  if hasPrefix n whMetaPrefix && hasPrefix n whLinkDir && e.typ == .reg then do
+    let b := base n
+    let st1 := { st with staged := (b, e) :: st.staged.filter (fun x => x.1 ≠ b) }
+    let mk ← (if st1.tmp = [] then sys (.mkdtemp dest b!"dockerplnk") else pure (.str st1.tmp))
+    match mk with
+    | .str t =>
+      let st2 := { st1 with tmp := t }
+      let out ← createTarFileP (join t b) dest e o
+      if out != .ok then pure (.error out) else pure (.ok st2)
+    | _ => pure (.error .err)
+  else pure (.ok st)
+
+/-- a hard link into the staging area is re-sourced from the staged header (a copy) and file -/
+def resolveSrcP (st : LState) (e : Entry) : Prog (Except Out Entry) :=
+  if e.typ == .link && hasPrefix (clean e.linkname) whLinkDir then do
+    let lb := base e.linkname
+    match st.staged.find? (fun x => x.1 = lb) with
+    | none => pure (.error .err)
+    | some (_, se) =>
+      let d ← sys (.readFile (join st.tmp lb))
+      match d with
+      | .data bytes => pure (.ok { se with body := bytes, size := bytes.length })
+      | _ => pure (.error .err)
+  else pure (.ok e)
+
 def layerLoop (dest : Str) (o : Opts) : List Entry → LState → Prog (Out × Nat)
   | [], st => do
     let r ← dirTimesP dest st.dirs.reverse
@@ -275,18 +302,7 @@ def layerLoop (dest : Str) (o : Opts) : List Entry → LState → Prog (Out × N
     let st := { st0 with size := st0.size + e.size }
     let n := clean e.name
     -- reserved-prefix entries: staging area
-    let stR : Except Out LState ← (
-      if hasPrefix n whMetaPrefix && hasPrefix n whLinkDir && e.typ == .reg then do
-        let b := base n
-        let st1 := { st with staged := (b, e) :: st.staged.filter (fun x => x.1 ≠ b) }
-        let mk ← (if st1.tmp = [] then sys (.mkdtemp dest b!"dockerplnk") else pure (.str st1.tmp))
-        match mk with
-        | .str t =>
-          let st2 := { st1 with tmp := t }
-          let out ← createTarFileP (join t b) dest e o
-          if out != .ok then pure (.error out) else pure (.ok st2)
-        | _ => pure (.error .err)
-      else pure (.ok st))
+    let stR ← stageP dest o e st n
     match stR with
     | .error out =>
       -- the staging directory may have been created just before the failure
@@ -336,17 +352,7 @@ def layerLoop (dest : Str) (o : Opts) : List Entry → LState → Prog (Out × N
         if isErr rm then layerFinish dest st .err
         else
           -- hard links into the staging area are re-sourced from the staged copy
-          let srcR : Except Out Entry ← (
-            if e.typ == .link && hasPrefix (clean e.linkname) whLinkDir then do
-              let lb := base e.linkname
-              match st.staged.find? (fun x => x.1 = lb) with
-              | none => pure (.error .err)
-              | some (_, se) =>
-                let d ← sys (.readFile (join st.tmp lb))
-                match d with
-                | .data bytes => pure (.ok { se with body := bytes, size := bytes.length })
-                | _ => pure (.error .err)
-            else pure (.ok e))
+          let srcR ← resolveSrcP st e
           match srcR with
           | .error out => layerFinish dest st out
           | .ok src =>
